@@ -267,7 +267,8 @@ func run(c *Ctx) {
 		}
 	}
 	// byte cuts inside strings and block comments
-	for _, lit := range []string{`x = "hello world"`, "y = `raw string`", "/* block comment */ z", `f("a", "bc")`, "a /* in */ + b"} {
+	for _, lit := range []string{`x = "hello world"`, "y = `raw string`", "/* block comment */ z", `f("a", "bc")`, "a /* in */ + b",
+		`"a statement that is a string"`, "`raw first`; x", `x; "second statement"`, `{"k": "v"}`, "[`a`, `b`]"} {
 		b := []byte(lit)
 		inside := false
 		for i := 1; i < len(b); i++ {
